@@ -580,6 +580,8 @@ class Folder:
                 return _wrap(args[0] - args[1], bits, signed)
             if meth == 'wrapping_mul':
                 return _wrap(args[0] * args[1], bits, signed)
+            if meth == 'is_multiple_of':
+                return int(args[1] != 0 and args[0] % args[1] == 0) if args[1] != 0 else int(args[0] == 0)
             if meth == 'is_power_of_two':
                 return int(args[0] > 0 and args[0] & (args[0] - 1) == 0)
             if meth == 'saturating_sub':
